@@ -8,9 +8,9 @@ verif="$(pwd)"
 wt=$(mktemp -d /tmp/fvc-benwt-XXXXXX); out=$(mktemp -d /tmp/fvc-benout-XXXXXX)
 git -C /repo worktree add --detach "$wt" HEAD >/dev/null 2>&1 || { echo "cannot create worktree" >&2; exit 2; }
 trap 'git -C /repo worktree remove --force "$wt" >/dev/null 2>&1; rm -rf "$wt" "$out"' EXIT
-ids="$@"; [ -z "$ids" ] && ids=$(cd benign && ls */*.diff | sed 's/\.diff$//')
+bd="${BENIGN_DIR:-benign}"; ids="$@"; [ -z "$ids" ] && ids=$(cd $bd && ls */*.diff | sed 's/\.diff$//')
 for id in $ids; do
-  patch=benign/$id.diff; [ -f $patch ] || continue
+  patch=$bd/$id.diff; [ -f $patch ] || continue
   git -C "$wt" apply "$verif/$patch" || { echo "$id: patch does not apply"; continue; }
   own=${id%%/*}
   props=$(python3 - "$verif" "$patch" "$own" <<'PY'
@@ -43,7 +43,7 @@ PY
   done
   git -C "$wt" apply -R "$verif/$patch"
   echo "$id: ran=[$props] alarms=[${alarms# }] $how $notes"
-  python3 - "benign/$own/results.json" "$id" "${alarms# }" "$how" "$props" "$notes" <<'PY'
+  python3 - "$bd/$own/results.json" "$id" "${alarms# }" "$how" "$props" "$notes" <<'PY'
 import json,sys,os
 p=sys.argv[1]
 m=json.load(open(p)) if os.path.exists(p) else {}
